@@ -61,6 +61,13 @@ theorem holderInv_init (nq ng max : Nat) : HolderInv (initState nq ng max) := by
   · intro a q v h
     simp [initState, List.getElem?_replicate] at h
 
+theorem holderInv_initP (ps : List Bool) (ng max : Nat) : HolderInv (initStateP ps ng max) := by
+  refine ⟨by simp [initStateP, initState], ?_, ?_⟩
+  · intro a q
+    simp [initStateP, initState, State.pcAt, Pc.holds, List.getElem?_replicate]
+  · intro a q v h
+    simp [initStateP, initState, List.getElem?_replicate] at h
+
 end Desync
 
 namespace Desync
